@@ -45,9 +45,16 @@ PROPS = {
     "C05": dict(functions=[(R, CREAD, "default"), (DEC, r"BinaryDecoder\.read_long", "blockstart"), (R, r"read_long", "bare"),
                            (W, r"(null|deflate|bzip2|xz)_write_block", "default"), (W, r"Writer\.(dump|flush)", "default")],
                 lemmas=[], bounded="C05", level="other"),
-    # C06: the per-function short-read obligations of the decoder (a read that came back short makes
-    # the method raise) and the exact-consumption contracts; the container iterators are bounded
-    "C06": dict(functions=[(DEC, r"BinaryDecoder\..*", ".*"), (R, r"skip_sync", "default")], lemmas=[], bounded="C06", level="other"),
+    # C06: behaviour `short` (NO assumption about the input) of the decoder, of every reader (generated:
+    # contracts/read_short.py), of the codec block readers and of the container iterators: a call that returns has not
+    # had a read come back short, and the iterators end normally only when the input is exhausted exactly where a block
+    # would start (read_long[short]: EOFError exactly when there is nothing at all to read); plus the exact-consumption
+    # contracts of the decoder.  Which records come out of a cut file (a prefix of what was written) is bounded.
+    "C06": dict(functions=[(DEC, r"BinaryDecoder\..*", ".*"), (R, r"skip_sync", "default"),
+                           (R, r"read_(null|boolean|int|long|float|double|bytes|utf8|fixed|enum|array|map|union|record|data)", "short|bareshort"),
+                           (R, r"(null|deflate|bzip2|xz)_read_block", "short"),
+                           (R, r"(_iter_avro_records|_iter_avro_blocks|Block\.__iter__)", "short")],
+                lemmas=["wf_branch_at"], bounded="C06", level="other"),
     "C07": dict(functions=[(W, r"(null|deflate|bzip2|xz)_write_block", "default"), (W, r"Writer\.(dump|write|flush|write_block)", ".*")],
                 lemmas=[], bounded="C07", level="other"),
     # C08: alignment under schema resolution (behaviour `consume`: with ANY reader schema and options a reader that returns
